@@ -87,7 +87,8 @@ TOpenEnd ==
     /\ UNCHANGED <<hidx, stopReq>> /\ Adv
 TTrafficShutdown ==
     /\ Is("TrafficShutdown") /\ Ev.h \in DOMAIN hmap
-    /\ Traffic(loopOf[hmap[Ev.h]], hmap[Ev.h], "shutdown")
+    /\ \/ Traffic(loopOf[hmap[Ev.h]], hmap[Ev.h], "shutdown")
+       \/ TrafficSelfClosed(loopOf[hmap[Ev.h]], hmap[Ev.h])
     /\ KeepT /\ Adv
 TClose ==
     /\ Is("Close") /\ Ev.h \in DOMAIN hmap
